@@ -3,6 +3,7 @@
 package sim
 
 import (
+	"sort"
 	"errors"
 	"fmt"
 	"io"
@@ -471,6 +472,149 @@ type s1world struct {
 	lagSeq        int           // SimRecv entry count of the host end when resetLag was armed
 	hostSendOps   []int         // op index of every host->container message, in order
 	lastSrvRecvOp int           // op index whose message the server received last
+
+	// select seam (container.VSelHook): goroutines of the code under test parked in front of a select
+	selMode   int // selFree / selControlled / selDead
+	selParked []*selPark
+	selTried  map[string]map[int]bool // goroutine+site -> cases tried since the last other event
+	selRR     map[string]int
+	selLast   string // goroutine+site released by the last select event (did it come back? see selOffers)
+}
+
+const (
+	selFree       = iota // nobody schedules: a parked goroutine tries its cases round-robin, with (simulated) pauses in between
+	selControlled        // the simulator names the goroutine and the case (drive)
+	selDead              // the world is gone: block for ever
+)
+
+type selPark struct {
+	key  string // goroutine id + site
+	site string
+	n    int
+	ch   chan int
+}
+
+// selHook is container.VSelHook: called by a goroutine of the code under test in front of a select that seamgen
+// rewrote; returns the index of the one case that is enabled in this round.
+func (w *s1world) selHook(site string, n int) int {
+	key := fmt.Sprintf("%d/%s", goid(), site)
+	p := &selPark{key: key, site: site, n: n, ch: make(chan int, 1)}
+	w.mu.Lock()
+	mode := w.selMode
+	if mode == selDead {
+		w.mu.Unlock()
+		select {}
+	}
+	w.selParked = append(w.selParked, p)
+	rr := w.selRR[key]
+	w.selRR[key] = rr + 1
+	w.mu.Unlock()
+	if mode == selControlled {
+		return <-p.ch
+	}
+	// free mode: the first round of tries comes at once, later ones after growing pauses of simulated time
+	pause := time.Millisecond << min(rr/n, 10)
+	if rr < n {
+		pause = time.Microsecond
+	}
+	t := time.NewTimer(pause)
+	select {
+	case k := <-p.ch:
+		t.Stop()
+		return k
+	case <-t.C:
+		w.mu.Lock()
+		for i, q := range w.selParked {
+			if q == p {
+				w.selParked = append(w.selParked[:i], w.selParked[i+1:]...)
+				break
+			}
+		}
+		w.mu.Unlock()
+		select {
+		case k := <-p.ch: // released at the same moment
+			return k
+		default:
+		}
+		return rr % n
+	}
+}
+
+// selSetMode switches between simulator-scheduled and free-running selects; goroutines parked without a timer
+// are sent on their way when nobody is going to schedule them any more.
+func (w *s1world) selSetMode(m int) {
+	w.mu.Lock()
+	old := w.selMode
+	w.selMode = m
+	var wake []*selPark
+	if old == selControlled && m != selControlled {
+		wake, w.selParked = w.selParked, nil
+	}
+	w.selTried = map[string]map[int]bool{}
+	w.mu.Unlock()
+	for _, p := range wake {
+		p.ch <- 0
+	}
+}
+
+// selOffers lists (parked goroutine, case) pairs not tried since the last other event.
+func (w *s1world) selOffers() (ps []*selPark, ks []int) {
+	w.mu.Lock()
+	defer w.mu.Unlock()
+	if w.selLast != "" {
+		// the goroutine released last is not back in front of the same select: its case was ready and it
+		// moved on, which is an event like any other for everybody else (a try that found nothing is not)
+		back := false
+		for _, p := range w.selParked {
+			back = back || p.key == w.selLast
+		}
+		if !back {
+			w.selTried = map[string]map[int]bool{}
+		}
+		w.selLast = ""
+	}
+	// the order in which goroutines arrived here after the last event is the Go scheduler's: offers are
+	// listed by site name, never by arrival (one goroutine per site: calls are serialised by the environment)
+	parked := append([]*selPark(nil), w.selParked...)
+	sort.SliceStable(parked, func(i, j int) bool { return parked[i].site < parked[j].site })
+	for _, p := range parked {
+		for k := 0; k < p.n; k++ {
+			if !w.selTried[p.key][k] {
+				ps, ks = append(ps, p), append(ks, k)
+			}
+		}
+	}
+	return
+}
+
+// selRelease lets a parked goroutine try case k.
+func (w *s1world) selRelease(p *selPark, k int) {
+	w.mu.Lock()
+	found := false
+	for i, q := range w.selParked {
+		if q == p {
+			w.selParked = append(w.selParked[:i], w.selParked[i+1:]...)
+			found = true
+			break
+		}
+	}
+	if w.selTried[p.key] == nil {
+		w.selTried[p.key] = map[int]bool{}
+	}
+	w.selTried[p.key][k] = true
+	w.selLast = p.key
+	w.mu.Unlock()
+	if found {
+		p.ch <- k
+	}
+}
+
+// selOtherEvent: something else happened; every case of every parked select is worth a new try.
+func (w *s1world) selOtherEvent() {
+	w.mu.Lock()
+	w.selLast = ""
+	w.selTried = map[string]map[int]bool{}
+	w.mu.Unlock()
 }
 
 func newS1World(c *vcore.Ctx, conf *container.VServerConf) (*s1world, error) {
@@ -483,6 +627,9 @@ func newS1World(c *vcore.Ctx, conf *container.VServerConf) (*s1world, error) {
 	w.hostSoc = unixsocket.NewSimSocket(w.hostEnd)
 	w.srvSoc = unixsocket.NewSimSocket(w.srvEnd)
 	container.VInstall(w.procs, w.observe)
+	w.selTried, w.selRR = map[string]map[int]bool{}, map[string]int{}
+	container.VMuForget()
+	container.VSelHook = w.selHook
 	w.serveDone = make(chan struct{})
 	go func() {
 		defer close(w.serveDone)
@@ -608,6 +755,23 @@ func (w *s1world) teardown() {
 		w.procs.killLocked(ch)
 	}
 	w.mu.Unlock()
+	synctest.Wait()
+	// selects still parked get to try each of their cases a few more times (everything is closed now: whoever
+	// watches a done channel leaves), then the world is dead
+	for round := 0; round < 12; round++ {
+		w.mu.Lock()
+		parked := w.selParked
+		w.selParked = nil
+		w.mu.Unlock()
+		if len(parked) == 0 {
+			break
+		}
+		for _, p := range parked {
+			p.ch <- round % p.n
+		}
+		synctest.Wait()
+	}
+	w.selSetMode(selDead)
 	synctest.Wait()
 	container.VRetireServer()
 }
